@@ -16,6 +16,8 @@ def main(argv=None):
     s = sub.add_parser("selftest")
     s.add_argument("props", nargs="*")
     s.add_argument("--jobs", type=int, default=16)
+    s.add_argument("--cross", action="store_true", help="run every silent variant against all property checks")
+    s.add_argument("--only", nargs="*", default=None)
     s.add_argument("--repo", default=os.environ.get("SKVERIF_REPO", "/repo"))
     a = ap.parse_args(argv)
     seed = int(os.environ.get("VERIF_SEED", "0") or 0)
@@ -37,7 +39,7 @@ def main(argv=None):
     if a.cmd == "selftest":
         from .selftest import run_selftest
 
-        return run_selftest(a.props or None, a.repo, jobs=a.jobs, seed=seed)
+        return run_selftest(a.props or None, a.repo, jobs=a.jobs, seed=seed, cross=a.cross, only=a.only)
     return 2
 
 
